@@ -13,7 +13,7 @@ for p in breaks/equivalent/*.diff; do
   echo "$(basename $p): $out" | cut -c1-150
   echo "$out" | grep -q "rc=0" || rc=1
 done
-for d in seeded/equivalent/C*; do
+for d in seeded/equivalent/C* seeded/freedom/C*; do
   id=$(basename $d)
   checks=$(/venv/bin/python -c "import json;print(' '.join(json.load(open('$d/meta.json'))['checks_that_must_stay_silent']))")
   out=$(tools/mutant.sh $d/patch.diff $checks 2>&1 | grep -E "^==")
